@@ -15,7 +15,7 @@ MODEL_FILES = ['MaltModel/Rt/Errors.lean', 'MaltModel/Generated/Errors.lean', 'M
                'MaltModel/Proofs/C12Stack.lean', 'MaltModel/Proofs/C12Check.lean', 'MaltModel/Drv/C12.lean']
 CORPUS = os.path.join(common.VERIF, 'corpus', 'C12')
 
-STACK_CLASSES = ['reentered_conversion', 'foreign_key_hit', 'site_in_lambda']   # order of c12.classes' answer
+STACK_CLASSES = ['reentered_conversion', 'foreign_key_hit', 'site_in_lambda', 'unwrapped_generated_code']   # order of c12.classes' answer
 
 
 # ------------------------------------------------------------------------------------------------
@@ -50,7 +50,7 @@ def _worker_run(job):
         if 'spec' in case and 'src' not in case:
             built = c12_gen.build(case['spec'], case['tag'])
         else:
-            built = {'src': case['src'], 'entry': case['entry'], 'args': case['args'], 'fn_conv': case.get('fn_conv', {}),
+            built = {'src': case['src'], 'entry': case['entry'], 'args': case['args'], 'fn_conv': case.get('fn_conv', {}), 'wraps': case.get('wraps', []),
                      'recursive': case.get('recursive', True)}
         name = 'c12case_%s' % case['tag']
         path = os.path.join(_W['dir'], name + '.py')
@@ -64,7 +64,7 @@ def _worker_run(job):
             signal.alarm(0)
         res['path'] = path
         res['src'] = built['src']; res['entry'] = built['entry']; res['args'] = built['args']; res['fn_conv'] = built.get('fn_conv', {})
-        res['recursive'] = built.get('recursive', True)
+        res['recursive'] = built.get('recursive', True); res['wraps'] = built.get('wraps', [])
         return idx, res
     except Exception:
         return idx, {'status': 'harness-error', 'error': traceback.format_exc()[-1500:], 'fails': [], 'corr': [], 'stats': {}}
@@ -109,6 +109,19 @@ def sweep_specs(rng):
             out.append({'fns': [{'contexts': ctxs, 'fillers': True, 'sub': rng.randrange(1 << 30), 'kind': kind, 'form': 'block'}], 'x': 2})
         out.append({'fns': [caller('direct', form='assign'),
                             {'contexts': [], 'fillers': False, 'sub': rng.randrange(1 << 30), 'kind': kind, 'form': 'block'}], 'x': 2})
+    # separately converted callees (own malt.convert wrapper / to_graph output): at the leaf, in the middle, several,
+    # mixed with plain and unconverted links, under a recursive and a non-recursive entry point
+    patterns = [('wrapped',), ('direct', 'wrapped'), ('wrapped', 'direct'), ('wrapped', 'wrapped'), ('direct', 'wrapped', 'wrapped'),
+                ('wrapped', 'direct', 'wrapped'), ('map', 'wrapped'), ('dnc', 'wrapped'), ('wrapped', 'map'), ('wrapped-nonrec', 'direct'),
+                ('direct', 'wrapped-nonrec', 'direct'), ('wrapped', 'wrapped-nonrec'), ('method', 'wrapped'), ('lambda', 'wrapped'),
+                ('tograph',), ('direct', 'tograph'), ('tograph', 'direct'), ('wrapped', 'tograph')]
+    for pat in patterns:
+        for rec in (True, False):
+            for kind in ('raise-ValueError', 'raise-KeyError', 'raise-U2', 'raise-U', 'ZeroDivisionError'):
+                fns = [caller(l, form=rng.choice(['assign', 'return', 'augassign', 'expr']),
+                              ctxs=[rng.choice(sorted(set(c12_gen.CONTEXTS)))] if rng.random() < 0.5 else []) for l in pat]
+                fns.append(leaf(kind=kind, form='assign'))
+                out.append({'fns': fns, 'x': 2, 'recursive': rec})
     for link in sorted(set(c12_gen.LINKS)) + sorted(c12_gen.EXTRA_LINKS):
         out.append({'fns': [caller(link, form='assign'), leaf(kind='KeyError', form='assign')], 'x': 2})
         out.append({'fns': [caller('direct', form='expr'), caller(link, form='return'), leaf(kind='raise-ValueError')], 'x': 2})
@@ -140,7 +153,7 @@ def exception_zoo():
         if isinstance(T, type) and issubclass(T, Exception) and T.__name__ == n:
             zoo.append(T)
     ns = {'__name__': 'c12zoo'}
-    exec(c12_gen.PRELUDE, ns)
+    exec(c12_gen.PRELUDE.replace('@TAG@', 'zoo'), ns)
     zoo += [ns[k] for k in ('U', 'Usub', 'Udoc', 'U2', 'U3', 'U4', 'W', 'WK', 'Never')]
     zoo += [ns[k] for k in c12_gen.CTOR_CLASSES]
     exec('''
@@ -188,7 +201,8 @@ def check(run):
     import c12_real
     quick = run.tier == 'quick'
     run.rule = ('a case is a module with ONE failing statement: call chain f1..fd (d<=4), each link one of %d kinds (converted: direct / '
-                'partial / lambda / comprehension / nested def / method / lambda bound on its own line / self-recursion; unconverted: '
+                'partial / lambda / comprehension / nested def / method / lambda bound on its own line / self-recursion / callee separately '
+                'converted by its own malt.convert wrapper (recursive or not) or as a to_graph output; unconverted: '
                 'do_not_convert / map / sorted / max(key=)), the site statement in one of %d forms (assignment, augmented, expression, return, '
                 'if/elif/while/for/with header, and/or/not/compare operand, conditional-expression arm, call argument, comprehension element, '
                 'tuple and subscript targets) inside 0-3 of %d contexts (if/else/elif, while/for with continue/break/return around it, '
@@ -380,12 +394,15 @@ def process(run, cases, corr_every=1, full=True):
             if op == 'create':
                 a = parse_sexp(ans) if ans.startswith('(') else [ans]
                 ok = a[0] == exp and len(a) == 4 and a[1] == 'True'
+            elif op == 'rewrites':
+                a = parse_sexp(ans) if ans.startswith('(') else [ans]
+                ok = sexp(a[:2]) == exp
             else:
                 ok = ans == exp
             if not ok:
                 dis.setdefault(op, []).append({'case': cases[i].get('spec') or cases[i].get('corpus'), 'request': req[:600],
                                                'implementation': exp[:600], 'model': ans[:600]})
-        for op in ('srcmap', 'foreignkey', 'stack', 'chain', 'message', 'create'):
+        for op in ('srcmap', 'foreignkey', 'stack', 'chain', 'message', 'create', 'rewrites', 'events'):
             run.oblige('correspondence:c12.' + op, 'correspondence', not dis.get(op), json.dumps(dis.get(op, [])[:2]))
         run.cov['correspondence_lines'] = counts
         if corr_lines:
@@ -446,8 +463,8 @@ def process(run, cases, corr_every=1, full=True):
                 cls = ('foreign_key_hit' if not a[1] else 'reentered_conversion' if not a[2]
                        else 'site_in_lambda' if (a[3] and not a[4]) else None)
             else:
-                flags = classes_by_case.get(i) or res.get('py_classes') or [False, False, False]
-                cls = next((STACK_CLASSES[k] for k in [1, 0, 2] if flags[k]), None)
+                flags = classes_by_case.get(i) or res.get('py_classes') or [False, False, False, False]
+                cls = next((STACK_CLASSES[k] for k in [3, 1, 0, 2] if flags[k]), None)
         elif cls == 'PENDING-FOREIGN':
             cls = 'srcmap_key_outside_generated_file'
         run.cov.setdefault('failing_by_class', {})
@@ -457,7 +474,7 @@ def process(run, cases, corr_every=1, full=True):
         if key in seen or len(seen) > 40:
             continue          # one recorded witness per (oracle, class); the rest is counted above
         seen.add(key)
-        run.fail(f['what'], {'src': res['src'], 'entry': res['entry'], 'args': res['args'], 'fn_conv': res['fn_conv'], 'recursive': res.get('recursive', True), 'symlink': bool(case.get('symlink')),
+        run.fail(f['what'], {'src': res['src'], 'entry': res['entry'], 'args': res['args'], 'fn_conv': res['fn_conv'], 'recursive': res.get('recursive', True), 'wraps': res.get('wraps', []), 'symlink': bool(case.get('symlink')),
                              'spec': case.get('spec'), 'oracle': f['oracle'], 'corpus': case.get('corpus')}, cls)
 
     # a listed finding whose class was not observed is reported in the evidence (a fix in /repo makes the listing stale;
@@ -485,7 +502,7 @@ def replay(run, path):
     with open(path) as f:
         rep = json.load(f)
     case = rep.get('case', rep)
-    case = {k: v for k, v in case.items() if k in ('src', 'entry', 'args', 'fn_conv', 'spec', 'recursive', 'symlink') and v is not None}
+    case = {k: v for k, v in case.items() if k in ('src', 'entry', 'args', 'fn_conv', 'spec', 'recursive', 'symlink', 'wraps') and v is not None}
     if 'src' not in case:
         case = {'spec': case['spec'], 'symlink': case.get('symlink', False)}
     run.translate(['Errors'])
